@@ -296,11 +296,54 @@ def check_dot(case):
             continue
         reach.add(u)
         stack.extend(adj.get(u, ()))
+    # at column level: every field of a schema written by a step receives an edge (an output column nobody produces
+    # cannot be reached from the inputs)
+    fed = set(b for _, b in edges)
+    for nid, nd in nodes.items():
+        if nd["record"] and nid != "sch0":
+            for port, colname in nd["ports"].items():
+                require("%s:%s" % (nid, port) in fed, "dot:output-column-unreachable",
+                        "field %s (%r) of %s is produced by no step" % (port, colname, nid), facts)
+    # every input column the pipeline consumes leaves the input schema
+    used = _used_columns(case["spec"], list(range(len(in_names))), list(case["names"]))
+    port_of = {str(v): k for k, v in nodes["sch0"]["ports"].items()}
+    srcs = set(a for a, _ in edges)
+    for ci in sorted(used):
+        prt = "sch0:%s" % port_of[str(in_names[ci])]
+        require(prt in srcs, "dot:consumed-input-column-dangling", "input column %r is consumed by the pipeline but no edge leaves %s" % (in_names[ci], prt), facts)
     sinks = [k for k in nodes if not adj.get(k) and k != "sch0"]
     require(len(sinks) >= 1, "dot:no-output", "", facts)
     for s in sinks:
         require(s in reach, "dot:output-unreachable", "%s (label %r) cannot be reached from the input schema" % (s, nodes[s]["label"]), facts)
     return Outcome(_labels(case), _nontrivial(case), key=[_shape(case["spec"]), schema])
+
+
+def _used_columns(spec, cols, names=None):
+    """indices (into the input schema) of the columns consumed by the first consuming level of the program;
+    `cols` are the schema indices visible at this point, `names` the input schema's names (for selection by name)"""
+    t = spec["t"]
+    if t == "pipeline":
+        for s_ in spec["steps"]:
+            return _used_columns(s_, cols, names) if s_["t"] != "pass" else set(cols)
+        return set(cols)
+    if t == "union":
+        out = set()
+        for s_ in spec["members"]:
+            out |= _used_columns(s_, cols, names)
+        return out
+    if t == "columns":
+        out, taken = set(), set()
+        for tr in spec["transformers"]:
+            if spec["byname"]:
+                sel = [names.index(c) for c in tr["cols"]]
+            else:
+                sel = [cols[c] for c in tr["cols"]]
+            taken |= set(sel)
+            out |= _used_columns(tr["tr"], sel, names) if tr["tr"]["t"] in ("pipeline", "union", "columns") else set(sel)
+        if spec["remainder"] == "passthrough":
+            out |= set(cols) - taken
+        return out
+    return set(cols)
 
 
 def _has_byname(spec):
